@@ -10,15 +10,30 @@ if '--tier' in args:
     i = args.index('--tier'); tier = args[i + 1]; del args[i:i + 2]
 if '--props' in args:
     i = args.index('--props'); props = args[i + 1].split(','); del args[i:i + 2]
+scratch = None
+if '--scratch' in args:
+    # run against a private copy of /repo (+ a private copy of the native driver that depends on it): /repo stays untouched,
+    # e.g. while other checks are running. The final confirmation of a sweep is still done on /repo itself (no --scratch).
+    i = args.index('--scratch'); scratch = args[i + 1]; del args[i:i + 2]
+    os.makedirs(scratch, exist_ok=True)
+    subprocess.run('rsync -a --delete --exclude target --exclude .git /repo/ %s/repo/' % scratch, shell=True, check=True)
+    os.makedirs(scratch + '/native', exist_ok=True)
+    subprocess.run('rsync -a --delete %s/native/src %s/native/Cargo.lock %s/native/' % (V, V, scratch), shell=True, check=True)
+    open(scratch + '/native/Cargo.toml', 'w').write(open(V + '/native/Cargo.toml').read().replace('path = "/repo"', 'path = "%s/repo"' % scratch))
+    os.environ['VERIF_REPO'] = scratch + '/repo'
+    os.environ['VERIF_NATIVE_DIR'] = scratch + '/native'
 ids = args or sorted(d for d in os.listdir(os.path.join(V, 'seeded')) if not d.startswith('_'))
 res_path = os.path.join(V, 'seeded', 'results.json')
 results = json.load(open(res_path)) if os.path.exists(res_path) else {}
-assert subprocess.run('git -C /repo status --porcelain --untracked-files=no', shell=True, capture_output=True, text=True).stdout.strip() == '', '/repo not clean'
+assert scratch or subprocess.run('git -C /repo status --porcelain --untracked-files=no', shell=True, capture_output=True, text=True).stdout.strip() == '', '/repo not clean'
 for sid in ids:
     d = os.path.join(V, 'seeded', sid)
     meta = json.load(open(os.path.join(d, 'meta.json')))
     ps = props or [meta['property']]
-    r = subprocess.run('git -C /repo apply %s/patch.diff' % d, shell=True, capture_output=True, text=True)
+    if scratch:
+        r = subprocess.run('cd %s/repo && patch -p1 -s < %s/patch.diff' % (scratch, d), shell=True, capture_output=True, text=True)
+    else:
+        r = subprocess.run('git -C /repo apply %s/patch.diff' % d, shell=True, capture_output=True, text=True)
     if r.returncode != 0:
         print(sid, 'PATCH DOES NOT APPLY', r.stderr[:200]); continue
     try:
@@ -40,5 +55,8 @@ for sid in ids:
             print('%-8s vs %s %s: %s (%d violations, %.0fs) %s' % (sid, p, tier, status, len(viol), time.time() - t, '; '.join(keys[:3]) or '; '.join(inc[:2])[:200]))
             results.setdefault(sid, {})['%s:%s' % (p, tier)] = {'status': status, 'exit': c.returncode, 'keys': keys[:8], 'inconclusive': [i[:200] for i in inc[:3]]}
     finally:
-        subprocess.run('git -C /repo checkout -- .', shell=True)
+        if scratch:
+            subprocess.run('rsync -a --delete --exclude target --exclude .git /repo/ %s/repo/ && find %s/repo/src -name "*.rs" -exec touch {} +' % (scratch, scratch), shell=True)
+        else:
+            subprocess.run('git -C /repo checkout -- .', shell=True)
     json.dump(results, open(res_path, 'w'), indent=1, sort_keys=True)
